@@ -137,6 +137,10 @@ impl Tree {
     pub fn file_count(&self) -> usize {
         self.0.values().filter(|n| n.is_file()).count()
     }
+    /// Nesting depth of the deepest entry ("/a" = 1).
+    pub fn max_depth(&self) -> usize {
+        self.0.keys().map(|p| if p == "/" { 0 } else { p.matches('/').count() }).max().unwrap_or(0)
+    }
 }
 
 // ---------------------------------------------------------------------------
@@ -777,6 +781,8 @@ pub struct GenTree {
     root_meta: Meta,
     children: Vec<GenNode>,
     max_len: u32,
+    /// Node budget beyond the usual 40: the length of a deep directory chain, if any.
+    extra_budget: usize,
 }
 
 fn gen_children(cfg: TreeCfg, depth: u32) -> BoxedStrategy<Vec<GenNode>> {
@@ -868,18 +874,64 @@ fn flatten(
 impl GenTree {
     pub fn build(&self, opts: Opts) -> Tree {
         let mut t = Tree::empty_root(self.root_meta);
-        let mut budget = 40usize;
+        let mut budget = 40usize + self.extra_budget;
         flatten("/", &self.children, opts, self.max_len, &mut t.0, &mut budget);
         t
     }
 }
 
+/// One level of a deep directory chain: the directory's name and metadata, and possibly a
+/// small file beside it.
+fn chain_level(cfg: TreeCfg) -> BoxedStrategy<(String, Meta, Option<GenNode>)> {
+    let beside = (
+        "[a-c.~ -]{1,2}".prop_filter("not . or ..", |n: &String| n != "." && n != ".."),
+        (0u8..8, len_strategy()),
+        meta_strategy(cfg, false),
+    )
+        .prop_map(|(name, (pool, len), meta)| GenNode {
+            name,
+            kind: GenKind::File { pool, len },
+            meta,
+            children: vec![],
+        });
+    (
+        "[a-cé.~ -]{1,2}".prop_filter("not . or ..", |n: &String| n != "." && n != ".."),
+        meta_strategy(cfg, true),
+        prop::option::weighted(0.3, beside),
+    )
+        .boxed()
+}
+
 pub fn gen_tree_strategy(cfg: TreeCfg) -> BoxedStrategy<GenTree> {
-    (meta_strategy(cfg, true), gen_children(cfg, 0))
-        .prop_map(move |(root_meta, children)| GenTree {
-            root_meta,
-            children,
-            max_len: cfg.max_len,
+    // One tree in sixteen is *deep*: what was generated hangs below a chain of 5-40 nested
+    // directories (short names, own metadata, now and then a file beside the next level),
+    // so nesting reaches 9-44 levels instead of stopping at max_depth.
+    let chain = prop_oneof![
+        15 => Just(Vec::new()),
+        1 => prop::collection::vec(chain_level(cfg), 5..=40),
+    ];
+    (meta_strategy(cfg, true), gen_children(cfg, 0), chain)
+        .prop_map(move |(root_meta, children, chain)| {
+            let extra_budget = chain.len() + chain.iter().filter(|l| l.2.is_some()).count();
+            let mut children = children;
+            for (name, meta, beside) in chain.into_iter().rev() {
+                let dir = GenNode {
+                    name,
+                    kind: GenKind::Dir,
+                    meta,
+                    children,
+                };
+                children = match beside {
+                    Some(f) if f.name != dir.name => vec![f, dir],
+                    _ => vec![dir],
+                };
+            }
+            GenTree {
+                root_meta,
+                children,
+                max_len: cfg.max_len,
+                extra_budget,
+            }
         })
         .boxed()
 }
